@@ -202,3 +202,33 @@ V("C15", "uselast_field", "fire", [("annet/mesh/peer_models.py", "    families: 
 V("C15", "handler_same_order", "fire", [("annet/mesh/executor.py", "        else:\n            rule.handler(peer_neighbor, peer_device, session)", "        else:\n            rule.handler(peer_device, peer_neighbor, session)")], rule="C15.R2")
 V("C20", "make_pre_writes_match", "fire", [(PT, "        raw_rule = match[\"raw_rule\"]\n        key = match[\"key\"]\n", "        raw_rule = match[\"raw_rule\"]\n        key = match[\"key\"]\n        match[\"attrs\"][\"seen\"] = True\n")], rule="C20.R1b")
 V("C20", "logic_writes_rule_pre", "fire", [(CM, "def permanent(rule, key, diff, **kwargs):\n", "def permanent(rule, key, diff, **kwargs):\n    kwargs[\"rule_pre\"][\"attrs\"][\"touched\"] = True\n")], rule="C20.R1b")
+
+# ---------------------------------------------------------------- round-2 rules: halves that are harmless alone stay silent
+STRIP_INPLACE = (PT, "    passed = []\n    for (op, row, children, d_match) in diff:\n        if op == Op.UNCHANGED:\n            continue\n        children = strip_unchanged(children)\n        passed.append((op, row, children, d_match))\n    return passed",
+                 "    passed = [item for item in diff if item[0] != Op.UNCHANGED]\n    for (_, _, children, _) in passed:\n        children[:] = strip_unchanged(children)\n    return passed")
+V("C16", "twin_strip_inplace_after_patch", "silent", [STRIP_INPLACE])
+V("C16", "strip_inplace_before_patch", "fire", [STRIP_INPLACE, (API, "    patchtree = patch_from_pre(patching.make_pre(diff_obj), hw, rb, add_comments)\n    diff_obj = patching.strip_unchanged(diff_obj)\n",
+                                                                  "    shown = patching.strip_unchanged(diff_obj)\n    patchtree = patch_from_pre(patching.make_pre(diff_obj), hw, rb, add_comments)\n    diff_obj = shown\n")], rule="C16.R4")
+V("C13", "null_is_absent", "fire", [(JT, "    parts = jsonpointer.JsonPointer(pattern).parts\n    matched = [([], content)]",
+                                     "    if \"*\" not in pattern:\n        ptr = jsonpointer.JsonPointer(pattern)\n        if ptr.resolve(content, None) is None:\n            return []\n        return [ptr]\n    parts = jsonpointer.JsonPointer(pattern).parts\n    matched = [([], content)]")], rule="C13.R5")
+V("C13", "move_rewritten_from_old", "fire", [(JT, "return list(jsonpatch.make_patch(old, new).patch)",
+                                              "ops = []\n    for op in jsonpatch.make_patch(old, new).patch:\n        if op[\"op\"] == \"move\":\n            ops.append({\"op\": \"remove\", \"path\": op[\"from\"]})\n            ops.append({\"op\": \"add\", \"path\": op[\"path\"], \"value\": jsonpointer.resolve_pointer(old, op[\"from\"])})\n        else:\n            ops.append(op)\n    return ops")], rule="C13.R1b")
+V("C12", "break_before_yield", "fire", [("annet/parallel.py", "                if not queue_empty:\n                    self.tasks_done += 1\n", "                if not pool:\n                    break\n\n                if not queue_empty:\n                    self.tasks_done += 1\n")], rule="C12.R6")
+V("C12", "retry_falls_off", "fire", [("annet/parallel.py", "            if attempt >= net_retry:\n                raise\n            attempt += 1", "            if attempt >= net_retry:\n                break\n            attempt += 1")], rule="C12.R6")
+V("C19", "prio_or_default", "fire", [("annet/generators/entire.py", "        if not hasattr(self, \"prio\"):\n            self.prio = 100", "        self.prio = getattr(self, \"prio\", None) or 100")], rule="C19.R7")
+V("C19", "twin_prio_is_none", "silent", [("annet/generators/entire.py", "        if not hasattr(self, \"prio\"):\n            self.prio = 100", "        if getattr(self, \"prio\", None) is None:\n            self.prio = 100")])
+V("C19", "lines_lowercased", "fire", [("annet/diff.py", "old_lines = old.splitlines() if old else []", "old_lines = [ln.strip() for ln in old.splitlines()] if old else []")], rule="C19.R6")
+V("C15", "subif_truthiness", "fire", [("annet/mesh/executor.py", "        elif changes.subif is not None:\n            # single connection", "        elif changes.subif:\n            # single connection")], rule="C15.R6")
+V("C17", "rules_memo_by_hw", "fire", [("annet/implicit.py", "def compile_rules(device):\n    return compile_tree(_implicit_tree(device))", "_memo = {}\n\n\ndef compile_rules(device):\n    if device.hw not in _memo:\n        _memo[device.hw] = compile_tree(_implicit_tree(device))\n    return _memo[device.hw]")], rule="C17.R5")
+V("C17", "twin_rules_memo_full_key", "silent", [("annet/implicit.py", "def compile_rules(device):\n    return compile_tree(_implicit_tree(device))", "_memo = {}\n\n\ndef compile_rules(device):\n    key = (device.hw, tuple(sorted(device.tags)))\n    if key not in _memo:\n        _memo[key] = compile_tree(_implicit_tree(device))\n    return _memo[key]")])
+V("C20", "merge_dicts_extend", "fire", [("annet/annlib/lib.py", "                merged[key] = merged[key].__class__(itertools.chain(merged[key], value))", "                merged[key] += value")], rule="C20.R4")
+V("C06", "select_shortcut", "fire", [(PT, "    matches = _find_acl_matches(row, rules)\n    if matches:\n        if exclusive:", "    matches = _find_acl_matches(row, rules)\n    if len(matches) == 1 and not exclusive:\n        ((rule, _), other) = matches[0]\n        match = {\"attrs\": copy.deepcopy(rule[\"attrs\"])}\n        match.update(other)\n        return (match, rule[\"children\"])\n    if matches:\n        if exclusive:")], rule="C06.R6")
+V("C09", "rule_memo_by_last_word", "fire", [(DP, "        rule = deploying.match_deploy_rule(rules, cmd_path, context)", "        if cmd_path[-1] not in _seen:\n            _seen[cmd_path[-1]] = deploying.match_deploy_rule(rules, cmd_path, context)\n        rule = _seen[cmd_path[-1]]"), (DP, "    cmds_with_apply = []\n    for cmd_path, context in cmd_paths.items():", "    cmds_with_apply = []\n    _seen = {}\n    for cmd_path, context in cmd_paths.items():")], rule="C09.R4")
+V("C09", "twin_rule_memo_full_key", "silent", [(DP, "        rule = deploying.match_deploy_rule(rules, cmd_path, context)", "        k = (cmd_path, repr(context))\n        if k not in _seen:\n            _seen[k] = deploying.match_deploy_rule(rules, cmd_path, context)\n        rule = _seen[k]"), (DP, "    cmds_with_apply = []\n    for cmd_path, context in cmd_paths.items():", "    cmds_with_apply = []\n    _seen = {}\n    for cmd_path, context in cmd_paths.items():")])
+V("C07", "row_cut_at_space_percent", "fire", [(SX, "raw_rule = raw_rule[:index].strip()", "raw_rule = raw_rule.split(\" %\")[0].strip()")], rule="C07.R6")
+V("C07", "twin_row_cut_partition", "silent", [(SX, "raw_rule = raw_rule[:index].strip()", "raw_rule = raw_rule.partition(\"%\")[0].strip()")])
+V("C03", "rewrite_clear_first_level", "fire", [(CM, "if all(its[i].op == Op.AFFECTED for i, its in iter_diff(diff)):", "if all(item.op == Op.AFFECTED for item in diff):")], rule="C03.R7")
+V("C01", "ordered_plain_logic", "fire", [(RP, "                attrs[\"params\"][\"logic\"] = ORDERED_PATCH_LOGIC\n", "                if attrs[\"params\"][\"logic\"] == DEFAULT_PATCH_LOGIC:\n                    attrs[\"params\"][\"logic\"] = ORDERED_PATCH_LOGIC\n")], rule="C01.R8")
+V("C04", "asr_terminator_startswith", "fire", [(TP, "tree[:] = filter(lambda x: not x.endswith(policy_end_blocks), tree)", "tree[:] = filter(lambda x: not x.strip().startswith(policy_end_blocks), tree)")], rule="C04.R6")
+V("C04", "twin_asr_terminator_exact", "silent", [(TP, "tree[:] = filter(lambda x: not x.endswith(policy_end_blocks), tree)", "tree[:] = filter(lambda x: x.strip() not in policy_end_blocks, tree)")])
+V("C08", "reversed_sorted_negated", "fire", [(PT, "            for item in sorted(ordered, key=(lambda item: (\n                (item[\"order\"] if item[\"direct\"] else -item[\"order\"]),\n                item[\"direct\"],\n            )))", "            for item in reversed(sorted(ordered, key=(lambda item: (\n                (-item[\"order\"] if item[\"direct\"] else item[\"order\"]),\n                not item[\"direct\"],\n            ))))")], rule="C08.R2")
